@@ -7,6 +7,7 @@ import PoetryVerif.Proofs.MarkerAlgSoundOps
 import PoetryVerif.Proofs.MarkerShape
 import PoetryVerif.Proofs.MarkerPrint
 import PoetryVerif.Proofs.MarkerPrintChars
+import PoetryVerif.Proofs.MarkerPrintDom
 import PoetryVerif.Proofs.MarkerEval
 
 set_option linter.unusedSimpArgs false
@@ -203,5 +204,21 @@ example : ∀ l, Ex.G0 l → Leaf.Lexable l := by
   · exact leafLexable_single (by decide) (by decide) (hv _ (Or.inl rfl))
   · exact leafLexable_single (by decide) (by decide) (hv _ (Or.inl rfl))
   · exact leafLexable_single (by decide) (by decide) (hv _ (Or.inr rfl))
+
+/-- **Marker text on the string/`extra` fragment, no hypothesis**: for every marker over `==`/`!=` leaves on the
+canonical string variables and `extra` (plain quotable values; atomic multi/union leaves included) whose
+`__str__` is a marker text, in every environment defining the extras: `str(m)` is parsed by the grammar model
+back to the tree of `m`, `_compact_markers` rebuilds from it a marker of the fragment, and that marker validates
+to the truth value of `m`. -/
+theorem print_parse_quotable {ex : List String} (hE : E.extras = some ex) {m : M} {t : Syn}
+    (hg : M.Good (InvLeaf E) m) (h : M.toSyn m = some t) :
+    ∃ s, M.toStr m = .ok s ∧ parseText s = .ok t ∧
+      ∃ m', compactRaw t = .ok m' ∧ M.Good (InvLeaf E) m' ∧
+        M.validate E m' = .ok (M.sem (leafEval E) m) := by
+  obtain ⟨s, h1, h2, m', h3, h4, h5⟩ :=
+    M.parseText_toStr (leafSpec_inv hE) (printOK_inv hE) (fun l hl => lexable_inv l hl) hg h
+  refine ⟨s, h1, h2, m', h3, h4, ?_⟩
+  rw [M.validate_eq_sem E m' (M.good_mono (fun l hl => invLeaf_evaluable hE hl) m' h4)]
+  exact congrArg _ h5
 
 end Poetry.C13
